@@ -16,11 +16,9 @@ RANDOM_CALLS = ("random.", "uuid.uuid1", "uuid.uuid4", "uuid4", "uuid1", "os.ura
                 "time.perf_counter", "datetime.now", "datetime.datetime.now", "datetime.utcnow", "date.today", "datetime.date.today")
 
 # order-sensitive uses of sets that were read and accepted, one reason each:  (function, construct) -> reason
-ACCEPTED_SENSITIVE: dict[tuple[str, str], str] = {
-    ("sigma.correlations.SigmaCorrelationCondition.from_dict",
-     "SigmaCorrelationConditionOperator.operators() in for op in SigmaCorrelationConditionOperator.operators()"):
-        "exactly one operator key is present (guard `len(d_keys.intersection(ops)) != 1` raises above), so the loop's break hits the same element in every order",
-}
+# (function, construct) pairs of order-sensitive consumers accepted after review. Empty: the one former entry (the search for
+# the operator key of a correlation condition) is now derived (_unique_match).
+ACCEPTED_SENSITIVE: dict[tuple[str, str], str] = {}
 
 # nondeterminism sources reviewed: (function, call text prefix) -> where the value may flow
 ACCEPTED_RANDOM = {
@@ -186,10 +184,60 @@ def _key_is_injective(key: ast.AST, prog: Any = None, fi: Any = None) -> bool:
     return False
 
 
+def _unique_match(ctx, fi: FuncInfo, e: ast.AST, doc_txt: str) -> Optional[str]:
+    """The elements of the set ``e`` are searched for the one that is a key of ``doc_txt``, and a refusal above has
+    established that exactly one is: `len(<keys of doc> & <this set>) != 1` raises on every path to this point."""
+    import re as _re
+    prog = ctx.prog
+
+    def bound_to(name: str) -> Optional[ast.AST]:
+        b = [st.value for st in ast.walk(fi.node) if isinstance(st, ast.Assign) and len(st.targets) == 1 and isinstance(st.targets[0], ast.Name) and st.targets[0].id == name]
+        return b[0] if len(b) == 1 else None
+
+    def is_this_set(name: str) -> bool:
+        if isinstance(e, ast.Name) and e.id == name:
+            return True
+        v = bound_to(name)
+        return v is not None and isinstance(v, ast.Call) and call_name(v) in ("frozenset", "set") and len(v.args) == 1 and unparse(v.args[0]) == unparse(e)
+
+    def is_doc_keys(name: str) -> bool:
+        v = bound_to(name)
+        return v is not None and unparse(v).replace(" ", "") in (f"frozenset({doc_txt}.keys())", f"set({doc_txt}.keys())", f"frozenset({doc_txt})", f"set({doc_txt})", f"{doc_txt}.keys()")
+    for g, pol in atomic_guards(guards_at(prog, fi, e)):
+        m = _re.fullmatch(r"len\((\w+)(?: & |\.intersection\()(\w+)\)?\) != 1", g)
+        if m and pol is False:
+            a, b = m.group(1), m.group(2)
+            if (is_this_set(a) and is_doc_keys(b)) or (is_this_set(b) and is_doc_keys(a)):
+                return f"exactly one element is a key of {doc_txt} (the guard `{g}` raises above), so the search hits the same element in every order"
+    return None
+
+
+def _membership_search(prog, fi: FuncInfo, e: ast.AST) -> Optional[str]:
+    """``e`` is iterated only to find its elements that are keys of a map: the map's text, for `for x in e: if x in D`,
+    `next(x for x in e if x in D)` and `(x,) = (x for x in e if x in D)`."""
+    p = prog.parent(e)
+    if isinstance(p, ast.comprehension) and p.iter is e and isinstance(p.target, ast.Name):
+        for c in p.ifs:
+            if isinstance(c, ast.Compare) and len(c.ops) == 1 and isinstance(c.ops[0], ast.In) and unparse(c.left) == p.target.id:
+                comp = prog.parent(p)
+                if isinstance(comp, (ast.GeneratorExp, ast.ListComp)) and isinstance(comp.elt, ast.Name) and comp.elt.id == p.target.id:
+                    return unparse(c.comparators[0])
+    if isinstance(p, ast.For) and p.iter is e and isinstance(p.target, ast.Name) and len(p.body) == 1 and isinstance(p.body[0], ast.If):
+        t = p.body[0].test
+        if isinstance(t, ast.Compare) and len(t.ops) == 1 and isinstance(t.ops[0], ast.In) and unparse(t.left) == p.target.id and not p.body[0].orelse:
+            return unparse(t.comparators[0])
+    return None
+
+
 def classify_use(ctx, fi: FuncInfo, e: ast.AST) -> tuple[str, str]:
     """('insensitive'|'sensitive'|'none', reason) for the syntactic context in which set expression e is consumed."""
     prog = ctx.prog
     p = prog.parent(e)
+    doc_txt = _membership_search(prog, fi, e)
+    if doc_txt is not None:
+        why = _unique_match(ctx, fi, e, doc_txt)
+        if why:
+            return "insensitive", why
     if isinstance(p, ast.Call) and e in p.args:
         d = call_name(p)
         last = d.split(".")[-1]
@@ -203,6 +251,9 @@ def classify_use(ctx, fi: FuncInfo, e: ast.AST) -> tuple[str, str]:
             return "insensitive", f"consumed by {d}()"
         if isinstance(p.func, ast.Attribute) and p.func.attr == "join":
             return "sensitive", "str.join over a set: element order follows the hash seed"
+        if last in ("map", "filter") and len(p.args) == 2 and p.args[1] is e:
+            # lazy element-wise consumers hand the order on: what matters is who consumes their result
+            return classify_use(ctx, fi, p)
         if last in ("list", "tuple", "enumerate", "iter", "next", "zip", "map", "filter", "reversed", "deque", "str", "repr", "format"):
             return "sensitive", f"{d}() materialises the set in hash order"
         if isinstance(p.func, ast.Attribute) and p.func.attr in ("update", "issubset", "issuperset", "isdisjoint", "union", "intersection", "difference", "extend") :
